@@ -27,12 +27,14 @@ Print Assumptions C10_fresh.
 Theorem C10_order : forall t1 t2, time_lt t1 t2 = true ->
   lex_lt (sort_key (mkDir (stamp false t1) None)) (sort_key (mkDir (stamp false t2) None)) = true.
 Proof. exact names_order. Qed.
+Print Assumptions C10_order.
 
 (** ':last' (':first') resolves to a directory with the prefix after (before) which no other such directory sorts *)
 Theorem C10_last : forall prefix names d, find_in_dir_names prefix names true = Some d ->
   In d names /\ has_prefix prefix (d_stamp d) = true /\
   forall x, In x names -> has_prefix prefix (d_stamp x) = true -> lex_lt (sort_key d) (sort_key x) = false.
 Proof. exact find_last_is_latest. Qed.
+Print Assumptions C10_last.
 Theorem C10_first : forall prefix names d, find_in_dir_names prefix names false = Some d ->
   In d names /\ has_prefix prefix (d_stamp d) = true /\
   forall x, In x names -> has_prefix prefix (d_stamp x) = true -> lex_lt (sort_key x) (sort_key d) = false.
@@ -46,6 +48,7 @@ Theorem C10_12h_refuted :
   lex_lt (sort_key (mkDir (stamp true t1) None)) (sort_key (mkDir (stamp true t2) None)) = false /\
   find_in_dir_names [2026; 10; 1] [mkDir (stamp true t1) None; mkDir (stamp true t2) None] true = Some (mkDir (stamp true t1) None).
 Proof. exact twelve_hour_refuted. Qed.
+Print Assumptions C10_12h_refuted.
 
 Theorem C10_reuse_refuted :
   let t := mkTime 2026 10 1 8 0 0 in
@@ -54,6 +57,7 @@ Theorem C10_reuse_refuted :
   map (fun e => length (snd e)) (dirs (h_world (history false true rs))) = [2%nat] /\
   map fst (h_chosen (history false false rs)) = [0; 1].
 Proof. exact reuse_refuted. Qed.
+Print Assumptions C10_reuse_refuted.
 
 Example C10_nonvacuous :
   (* three runs in the same second, two of them of the same group on a reused instance *)
